@@ -87,3 +87,11 @@ mod raw_memory_freelist;
 pub use self::address::Address;
 pub use self::address::ObjectReference;
 pub use self::opaque_pointer::*;
+
+/// Verification re-exports (add-only): items of the private free-list modules.
+#[cfg(feature = "mmtk_verif")]
+pub mod verif_ds_exports {
+    pub use super::freelist::{FreeList, FAILURE, MAX_HEADS, MAX_UNITS};
+    pub use super::int_array_freelist::IntArrayFreeList;
+    pub use super::raw_memory_freelist::RawMemoryFreeList;
+}
